@@ -480,6 +480,16 @@ def close(model: list[Fraction], impl: list[float]) -> bool:
 
 
 def compare_numeric(res, script, nums: list[tuple[int, Num]]) -> None:
+    import sys
+    old = sys.get_int_max_str_digits()
+    sys.set_int_max_str_digits(0)          # exact rationals after several iterations have thousands of digits
+    try:
+        _compare_numeric(res, script, nums)
+    finally:
+        sys.set_int_max_str_digits(old)
+
+
+def _compare_numeric(res, script, nums: list[tuple[int, Num]]) -> None:
     tied: dict = {}
     for i, nm in nums:
         out = script.outs[i]
